@@ -11,7 +11,7 @@ git -C /repo archive HEAD | tar -x -C $S/t
 cd $S/t
 if ! patch -p1 -s < $SRC/change_$K.diff; then echo "PATCH DOES NOT APPLY"; rm -rf $S; exit 9; fi
 if [ -z "$SR_QUICK" ]; then
-PYTHONPATH=$S/t /venv/bin/python -m pytest -q -p no:cacheprovider --timeout=900 -q > $S/suite.txt 2>&1
+PYTHONPATH=$S/t /venv/bin/python -m pytest -q -p no:cacheprovider --timeout=900 > $S/suite.txt 2>&1
 echo "suite with change: $(tail -1 $S/suite.txt) | failures: $(grep -c '^FAILED' $S/suite.txt) ($(grep '^FAILED' $S/suite.txt | grep -vc test_yaml.py::test_.*shell_script) unexpected)"
 PYTHONPATH=$S/t PYTHONWARNINGS=ignore /venv/bin/python $SRC/demo_$K.py > $S/demo.out 2>&1; echo "demo with change: exit=$? ($(tail -1 $S/demo.out | cut -c1-200))"
 (cd /repo && PYTHONPATH=/repo PYTHONWARNINGS=ignore /venv/bin/python $SRC/demo_$K.py > /dev/null 2>&1; echo "demo without change: exit=$?")
